@@ -141,10 +141,15 @@ func Parent(o *common.Opts) int {
 			}
 		}
 		seqs = append(seqs, r.Seqs...)
-		if len(r.Samples) > 6 {
-			r.Samples = r.Samples[:6]
+		perKind := map[string]int{}
+		for _, sm := range r.Samples {
+			m, _ := sm.(map[string]interface{})
+			kind, _ := m["kind"].(string)
+			if perKind[kind] < 2 {
+				perKind[kind]++
+				samples = append(samples, sm)
+			}
 		}
-		samples = append(samples, r.Samples...)
 		harnessErrs = append(harnessErrs, r.Errors...)
 		notes = append(notes, r.Notes...)
 	}
@@ -168,6 +173,12 @@ func Parent(o *common.Opts) int {
 	kfWhat := map[string]string{}
 	nviol := 0
 	nreplay := 0
+	type pendingViol struct {
+		class string
+		stat  *ClassStat
+		rf    *ReplayFile
+	}
+	var pending []pendingViol
 	var violClasses []string
 	for _, k := range names {
 		c := classes[k]
@@ -185,16 +196,33 @@ func Parent(o *common.Opts) int {
 		}
 		nviol++
 		violClasses = append(violClasses, fmt.Sprintf("%s (x%d)", k, c.Count))
+		pending = append(pending, pendingViol{k, c, rf})
+	}
+	// at most five witness files: first one per phase, then in class order
+	withReplay := map[int]bool{}
+	seenPhase := map[string]bool{}
+	for i, pv := range pending {
+		if len(withReplay) < 5 && !seenPhase[pv.rf.Violation.Phase] {
+			seenPhase[pv.rf.Violation.Phase] = true
+			withReplay[i] = true
+		}
+	}
+	for i := range pending {
+		if len(withReplay) < 5 {
+			withReplay[i] = true
+		}
+	}
+	for i, pv := range pending {
 		path := "(replay limit reached)"
-		if nreplay < 5 {
+		if withReplay[i] {
 			nreplay++
 			path = filepath.Join(o.Replays, fmt.Sprintf("C16-%d-%d.json", o.Seed, nreplay))
-			b, _ := json.MarshalIndent(rf, "", " ")
+			b, _ := json.MarshalIndent(pv.rf, "", " ")
 			if err := os.WriteFile(path, b, 0o644); err != nil {
 				harnessErrs = append(harnessErrs, err.Error())
 			}
 		}
-		fmt.Printf("C16 violation class %q x%d: %s\n", k, c.Count, v.Observed)
+		fmt.Printf("C16 violation class %q x%d: %s\n", pv.class, pv.stat.Count, pv.rf.Violation.Observed)
 		common.Violation("C16", path)
 	}
 	var kfIDs []string
@@ -299,7 +327,7 @@ func Replay(o *common.Opts) int {
 	}
 	wal.SegmentSizeBytes = rf.SegSize
 	v := rf.Violation
-	cb, _ := json.Marshal(v.Case)
+	cb := []byte(v.CaseJSON)
 	dir := filepath.Join(o.Work, "replay", "wal")
 	_ = os.MkdirAll(filepath.Dir(dir), 0o755)
 	var cr *CaseResult
